@@ -212,6 +212,25 @@ def _consume(res, tr, label, form, ser, payload, detached, want, conf, repro):
             if i < len(r.protected) and (r.protected[i] or None) != (wp or None):
                 res.violation(ID, "ref->jose:%s:header-differs" % e, "joserfc reads protected %r, peer signed %r" % (
                     r.protected[i], wp), dict(repro, entry=e))
+        # the returned header object is the application's: it annotates it, then the same token (same header octets) arrives again
+        try:
+            for hp in r.protected:
+                if isinstance(hp, dict):
+                    hp["verified_by"] = "c07"
+                    hp["alg"] = "none"
+        except Exception:
+            pass
+        r2 = W.deliver(e, ser, conf.build(), detached)
+        res.case(label, e, "again")
+        res.fired("same-token-again-after-caller-annotated-the-header")
+        if not r2.accepted:
+            res.violation(ID, "ref->jose:%s:rejected-second-time" % e, "the same foreign token is rejected when it arrives a second time, after the "
+                          "application changed the header object returned for the first: %s: %s" % (type(r2.exc).__name__, str(r2.exc)[:100]), dict(repro, entry=e))
+        else:
+            for i, (wp, wu) in enumerate(want):
+                if i < len(r2.protected) and (r2.protected[i] or None) != (wp or None):
+                    res.violation(ID, "ref->jose:%s:header-differs-second-time" % e, "second delivery reads protected %r, peer signed %r" % (
+                        r2.protected[i], wp), dict(repro, entry=e))
 
 
 def _vector(t, key, res, tr, index):
